@@ -40,7 +40,7 @@ var c20Ratios = []image.YCbCrSubsampleRatio{image.YCbCrSubsampleRatio444, image.
 	image.YCbCrSubsampleRatio440, image.YCbCrSubsampleRatio411, image.YCbCrSubsampleRatio410}
 var c20Origins = [][2]int{{0, 0}, {8, 8}, {1, 3}, {-8, -8}, {-5, 3}, {16, 0}}
 var c20Layouts = []string{"tight", "parent", "odd", "chroma-padded", "luma-padded", "band"}
-var c20Contents = []string{"random", "gradient", "saturated", "constant"}
+var c20Contents = []string{"random", "gradient", "saturated", "constant", "gray"}
 
 type c20img struct {
 	img    *image.YCbCr
@@ -106,6 +106,15 @@ func c20Build(r *core.Rng, ratio image.YCbCrSubsampleRatio, org [2]int, layout, 
 					} else {
 						p[i] = 0
 					}
+				}
+			}
+		case "gray":
+			// a black-and-white picture stored as YCbCr: neutral chroma everywhere, varied luma
+			if plane == 0 {
+				copy(p, r.Bytes(len(p)))
+			} else {
+				for i := range p {
+					p[i] = 128
 				}
 			}
 		default:
